@@ -20,7 +20,7 @@ from dataclasses import dataclass, field
 import z3
 
 from spec.circuit import Circuit, Cyclic, Evaluator, Unsupported
-from spec.facto_sem import BunV, IntV, Rejected, Sem, SemError, SigV
+from spec.facto_sem import BunV, IntV, Rejected, Sem, SemError, SigV, entity_key
 from spec.num import Concrete, Symbolic
 
 from . import pipeline
@@ -209,10 +209,17 @@ def judge(src, *, optimize=True, power_pole_type=None, rnd=None, scalar_own_sign
     overrides = {(num, sig): invars[name][sig] for name, lst in cin.items() for (num, sig) in lst}
     try:
         prog = pipeline.parse(src)
-        ent_names = sorted(set(re.findall(r"\b(\w+)\.output\b", src)))
         universe = sorted(set(re.findall(r'"([A-Za-z][A-Za-z0-9_-]+)"', src)) | {"iron-plate", "copper-plate"})
-        universe = [u for u in universe if not _is_proto_only(u, src)]
-        ent_out = {n: {sig: B.var(f"out_{n}.{sig}") for sig in universe} for n in ent_names}
+        # what a container / machine can report: items and fluids — never a virtual signal (a chest has no "signal-A")
+        universe = [u for u in universe if not _is_proto_only(u, src) and not u.startswith("signal-")]
+
+        class _Outputs(dict):
+            """free contents per ENTITY (key: spec.facto_sem.entity_key), created when first read"""
+            def get(self, key, default=None):
+                if key not in self:
+                    self[key] = {sig: B.var(f"out_{key}.{sig}") for sig in universe}
+                return self[key]
+        ent_out = _Outputs()
         sem = Sem(B, inputs=invars, entity_outputs=ent_out)
         sem.run(prog)
         outs = sem.outputs()
@@ -224,11 +231,11 @@ def judge(src, *, optimize=True, power_pole_type=None, rnd=None, scalar_own_sign
         return pv
     free = {}
     for ent in sem.entities:
-        if isinstance(ent.x, IntV) and isinstance(ent.y, IntV) and ent.name in ent_out:
+        if isinstance(ent.x, IntV) and isinstance(ent.y, IntV) and entity_key(ent) in ent_out:
             w, h = tile_size(ent.proto)
             for e in c.ents.values():
                 if e.name == ent.proto and abs(e.pos[0] - (ent.x.v + w / 2.0)) < 1e-6 and abs(e.pos[1] - (ent.y.v + h / 2.0)) < 1e-6:
-                    free[e.num] = ent_out[ent.name]
+                    free[e.num] = ent_out[entity_key(ent)]
     ev = Evaluator(c, B, overrides=overrides, free_outputs=free)
     pv.free = free
     _ENT["vars"] = ent_out
@@ -236,8 +243,8 @@ def judge(src, *, optimize=True, power_pole_type=None, rnd=None, scalar_own_sign
     _ENT["free"] = {}
     for ent in sem.entities:
         for num, d in free.items():
-            if d is ent_out.get(ent.name):
-                _ENT["free"][num] = (ent.name, list(d))
+            if entity_key(ent) in ent_out and d is ent_out[entity_key(ent)]:
+                _ENT["free"][num] = (entity_key(ent), list(d))
     ideal = None
     for name, val in outs.items():
         anchors = find_anchors(c, name)
